@@ -6,8 +6,8 @@ use bevy_enhanced_input::prelude::*;
 /// A parsed input rational `n` or `n/d`.
 #[derive(Clone, Copy, Debug, PartialEq)]
 pub struct Q {
-    pub n: i64,
-    pub d: i64,
+    pub n: i128,
+    pub d: i128,
 }
 
 impl Q {
@@ -24,8 +24,8 @@ impl Q {
     }
 }
 
-fn parse_digits(s: &str) -> Option<i64> {
-    if s.is_empty() || s.len() > 18 || !s.bytes().all(|b| b.is_ascii_digit()) {
+fn parse_digits(s: &str) -> Option<i128> {
+    if s.is_empty() || s.len() > 38 || !s.bytes().all(|b| b.is_ascii_digit()) {
         return None;
     }
     s.parse().ok()
